@@ -1,8 +1,9 @@
 (** * Queues / service: correspondence and the C13 predicate on the implementation's observations *)
 From Irismod Require Export Queues.Service.
 
-(** per context: (state, batch completed, batch counter), (timeout, frequency, total), (requests, responses) *)
-Definition cobs := ((Z * bool * Z) * (Z * Z * Z) * (Z * Z))%type.
+(** per context: (state, batch completed, batch counter), (timeout, frequency, total), (requests, responses),
+    (owning module, number of providers, response threshold, batch response threshold, outputs of the batch) *)
+Definition cobs := ((Z * bool * Z) * (Z * Z * Z) * (Z * Z) * (Z * Z * Z * Z * Z))%type.
 
 Record sobs := mkSObs {
   so_code : Z;
@@ -18,7 +19,8 @@ Definition scase := (Z * list (op * sobs))%type.
 
 Definition proj_ctxs (s : state) : list (Z * cobs) :=
   map (fun '(id, c) => (id, ((cstate_code (c_state c), c_done c, c_counter c),
-                             (c_timeout c, c_freq c, c_total c), (c_reqs c, c_resps c)))) (ctxs s).
+                             (c_timeout c, c_freq c, c_total c), (c_reqs c, c_resps c),
+                             (c_module c, c_nprov c, c_thr c, c_bthr c, c_outs c)))) (ctxs s).
 
 Definition scorr (s' : state) (oc : outcome) (o : sobs) : bool :=
   (so_code o =? outcome_code oc) && (so_height o =? height s')
@@ -37,10 +39,10 @@ Definition shyg (o : sobs) : bool :=
   queue_ok h (so_nq o) (so_nmark o) (so_ctxs o)
   && queue_ok h (so_xq o) (so_xmark o) (so_ctxs o)
   && forallb (fun '(id, _) => negb (has id (so_xmark o))) (so_nmark o)
-  && forallb (fun '(id, ((st, _, _), _, _)) => negb (st =? 0) || has id (so_nmark o) || has id (so_xmark o)) (so_ctxs o).
+  && forallb (fun '(id, ((st, _, _), _, _, _)) => negb (st =? 0) || has id (so_nmark o) || has id (so_xmark o)) (so_ctxs o).
 
 (** C13 on the observations ([prev] = observation before the step):
-    41 the end-blocker aborted;
+    41 the end-blocker aborted (a module callback dereferenced a nil error, or anything else);
     42 hygiene: duplicate entry, an entry behind the current height (never handled), an entry
        without its context or marker, a marker without its entry, a context in both queues, or
        a running context in neither queue;
@@ -61,9 +63,9 @@ Definition sprop (prev : sobs) (op_ : op) (o : sobs) : Z :=
                  && forallb (fun '(eh, id) =>
                       negb (eh =? h - 1)
                       || match get id (so_ctxs prev) with
-                         | Some ((0, _, cnt), (tmo, _, _), _) =>
+                         | Some ((0, _, cnt), (tmo, _, _), _, _) =>
                              match get id (so_ctxs o) with
-                             | Some ((st', done', cnt'), _, _) =>
+                             | Some ((st', done', cnt'), _, _, _) =>
                                  ((st' =? 1) && done') || ((cnt' =? cnt + 1) && ememb (h - 1 + tmo, id) (so_xq o))
                              | None => false
                              end
@@ -72,7 +74,7 @@ Definition sprop (prev : sobs) (op_ : op) (o : sobs) : Z :=
                  && forallb (fun '(eh, id) =>
                       negb (eh =? h - 1)
                       || match get id (so_ctxs prev), get id (so_ctxs o) with
-                         | Some ((_, _, cnt), _, _), Some ((_, done', cnt'), _, _) => done' || (cnt <? cnt')
+                         | Some ((_, _, cnt), _, _, _), Some ((_, done', cnt'), _, _, _) => done' || (cnt <? cnt')
                          | _, _ => true
                          end) (so_xq prev))
          | _ => subsetb (so_nq prev) (so_nq o) && subsetb (so_xq prev) (so_xq o)
